@@ -47,6 +47,13 @@ def parser_for(o, order=0):
         prods['OARGS'] = llparser.ListProds('<', 'VALUE', delim, '>', allow_final_delimiter=_afd(o), optional=True)
         prods['LIST'] = llparser.ListProds('[', item, delim, ']', allow_final_delimiter=_afd(o))
         prods['MAP'] = llparser.MapProds('{', 'WORD', ':', 'VALUE', ',', '}', allow_final_delimiter=o['mapafd'])
+    elif o['top'] == 'pre':
+        prods['E'] = [('VALUE',)]
+        prods['VALUE'] = [('REC',), ('LIST',), ('MAP',)]
+        prods['REC'] = [('OARGS', 'WORD')]
+        prods['OARGS'] = llparser.ListProds('<', 'VALUE', delim, '>', allow_final_delimiter=_afd(o), optional=True)
+        prods['LIST'] = llparser.ListProds('[', item, delim, ']', allow_final_delimiter=_afd(o))
+        prods['MAP'] = llparser.MapProds('{', 'WORD', ':', 'VALUE', ',', '}', allow_final_delimiter=o['mapafd'])
     elif o['top'] == 'decls':
         prods['E'] = [('DECLS',)]
         prods['DECLS'] = llparser.ListProds(None, 'DECL', ';', None)
@@ -150,6 +157,8 @@ def norm(x):
             return kids[0]
         if len(kids) == 2 and isinstance(kids[0], str) and kids[1] is None:
             return ('A', kids[0])
+        if len(kids) == 2 and isinstance(kids[1], str) and kids[0] is None:
+            return ('A', kids[1])         # the absent optional container stands before the word
         return ('N', kids)
     if isinstance(x, list):
         return [norm(c) for c in x]
@@ -180,7 +189,7 @@ def run_case(job):
             toks = []
             full_want = ('NODE', 'E', ['w', None, None])
         toks = prefix + toks
-    elif o['top'] == 'args':
+    elif o['top'] in ('args', 'pre'):
         full_want = ('NODE', 'E', [wrap_args(want)])
     elif o['top'] == 'decls':
         # the top list becomes  w = v1 ; w = v2 ; ...   (items of the datum's top list, split at nesting depth 0)
